@@ -24,6 +24,12 @@ the first identifier character.  The invariant holds initially (the decoder yiel
 source length, each well-formed one at least a byte wide), is kept by every scanner and parser operation, and the
 look-ahead token is always well formed; the panic site is specified with precondition `False`, which the generated
 verification condition has to derive at its only call site.
+
+Locality of the error position (same lemma files): the start offset of the scanner's look-ahead character never
+decreases, every token and every scanner error is positioned at or after it, a pending look-ahead token starts at or
+before it; hence every parse error raised while a definition is being parsed is positioned at or after the start of
+that definition's first token (`C12_error_position_local`), and accepted definitions are positioned at or after
+everything consumed before them (`C12_definition_position`).
 -/
 namespace CanVerif
 
@@ -65,6 +71,28 @@ theorem C12_success_or_positioned_error (data : List UInt8) :
 /-- An identifier token of the scanner model is never empty (what guards the panic site). -/
 theorem C12_ident_token_nonempty (s s' : Sc) (t : Token) (hi : StInv s) (h : s.scan = .ok (t, s'))
     (ht : t.typ = tokIdent) : t.txt ≠ [] :=
-  (exc_ok_of_triple _ _ _ (scan_ispec s hi) _ h).2.2 ht
+  (exc_ok_of_triple _ _ _ (scan_ispec s hi) _ h).2.2.1 ht
+
+/-- **C12, locality of the error position**: when parsing fails, it fails in one particular iteration of the
+definition loop, after the iterations that accepted the reported definitions (`C12_error_reports_accepted`); if that
+iteration had already found the first token `t` of the next definition, the error position is at or after the start
+of `t` — never inside or before an accepted definition's keyword. -/
+theorem C12_error_position_local (data : List UInt8) (p : Pos) (r : String) (ds : List Def)
+    (h : parseDbc data = .error p r ds) :
+    ∃ defs2 st2, StepsTo (data.length + 2) #[] { sc := Sc.init data } defs2 st2 ∧ ds = defs2.toList ∧
+      parseStep (data.length + 2) defs2 st2 = .error (.parse p r) ∧
+      (∀ t st1, peekToken.run st2 = .ok (t, st1) → t.pos.offset ≤ p.offset) ∧ lb st2 ≤ p.offset := by
+  unfold parseDbc at h
+  obtain ⟨defs2, st2, a, b, c⟩ := parseAll_error_step _ _ _ _ _ _ _ h
+  have hi0 : PSInv { sc := Sc.init data } := ⟨StInv_init data, fun h => (by cases h)⟩
+  have hi := stepsTo_inv _ _ _ _ _ a hi0
+  obtain ⟨_, e1, _, e2⟩ := parseStep_inv (data.length + 2) defs2 st2 (lb st2) hi (Nat.le_refl _)
+  exact ⟨defs2, st2, a, c, b, fun t st1 ht => e2 t st1 p r ht b, e1 p r b⟩
+
+/-- every accepted definition is positioned at or after everything consumed before its iteration began -/
+theorem C12_definition_position (defFuel : Nat) (defs : Array Def) (st st' : PS) (d : Def) (hi : PSInv st)
+    (h : parseStep defFuel defs st = .ok (some (d, st'))) : lb st ≤ d.pos.offset ∧ lb st ≤ lb st' :=
+  let x := (parseStep_inv defFuel defs st (lb st) hi (Nat.le_refl _)).2.2.1 d st' h
+  ⟨x.2.2, x.2.1⟩
 
 end CanVerif
